@@ -46,6 +46,7 @@ type Session struct {
 	byContent       map[string]string // decoded node -> bytes it was written as
 	lastCwalk       string
 	isoCount        int
+	isoStores       []*RecStore // the stores of isoload'ed trees (their loads count as loads of the diff)
 	ctx             context.Context
 }
 
@@ -657,6 +658,7 @@ func (s *Session) Exec(line string) (obs string, viol string) {
 		}
 		s.isoCount++
 		iso := NewRecStore(fmt.Sprintf("iso%d", s.isoCount))
+		s.isoStores = append(s.isoStores, iso)
 		if r.Link != nil {
 			for name := range s.reachOf(*r.Link, nil) {
 				iso.m[name] = s.Store.Get(name)
